@@ -134,12 +134,22 @@ func c09StepInvariant(s *buffer.Buffer, op *bufOp, s2 *buffer.Buffer) string {
 	}
 	st := s.VerifState()
 	pending := st.Buf[min(max(st.ValidUntil, 0), len(st.Buf)):]
-	if !utf8.Valid(pending) || (op.Kind == 'w' && !op.Valid) {
+	if !utf8.Valid(pending) || ((op.Kind == 'w' || op.Kind == 'b') && !op.Valid) {
 		return ""
 	}
 	c1 := s.VerifClone()
 	f1 := []byte(c1.RedactableString())
 	var addS, addE []byte
+	if op.Kind == 'b' {
+		switch op.Class {
+		case 'U':
+			addS, addE = Esc(op.Text), LFs(op.Text)
+		case 'S':
+			addS, addE = Esc(op.Text), Esc(op.Text)
+		default:
+			addS, addE = Strip(op.Text), EnvDel(op.Text)
+		}
+	}
 	if op.Kind == 'w' {
 		switch st.Mode {
 		case buffer.UnsafeEscaped:
